@@ -213,11 +213,12 @@ func (g *gen) emitDec(kind string, in []byte, ex expect) {
 	cs.Key = hex.EncodeToString(in)
 	if !g.c.OracleOnly && r.panicked == "" && !r.timeout {
 		e := g.w.envFor(in, r)
+		resetIntern()
 		obs := "None"
 		if r.err == nil {
-			obs = fmt.Sprintf("(Some (%s, %s, %d))", r.obs.coq(), hxlib.CoqBytes(r.obs.ID), r.unread)
+			obs = fmt.Sprintf("(Some (%s, %s, %d))", r.obs.coq(), cb(r.obs.ID), r.unread)
 		}
-		cs.Coq = fmt.Sprintf("CDec %s %s %s", e.coq(), hxlib.CoqBytes(in), obs)
+		cs.Coq = wrapLets(fmt.Sprintf("CDec %s %s %s", e.coq(), cb(in), obs))
 	}
 	g.c.Emit(cs)
 }
@@ -242,7 +243,8 @@ func (g *gen) emitEnc(h *honest) {
 	if !g.c.OracleOnly && r != nil && r.panicked == "" && !r.timeout {
 		e := g.w.envFor(in, r)
 		e.addH(h.hb)
-		cs.Coq = fmt.Sprintf("CEnc %s %s %s %s %s", e.coq(), o.coq(), hxlib.CoqBytes(h.hb), hxlib.CoqBytes(h.bb), hxlib.CoqBytes(o.ID))
+		resetIntern()
+		cs.Coq = wrapLets(fmt.Sprintf("CEnc %s %s %s %s %s", e.coq(), o.coq(), cb(h.hb), cb(h.bb), cb(o.ID)))
 	}
 	g.c.Emit(cs)
 }
@@ -254,22 +256,26 @@ func (g *gen) pick() *honest { return g.honest[g.c.Rand.Intn(len(g.honest))] }
 // honest blocks: encode side, decode side, truncations, extensions
 func (g *gen) genHonest() {
 	r := g.c.Rand
-	for _, h := range g.honest {
+	for hi, h := range g.honest {
 		g.emitEnc(h)
 		in := h.bytes()
 		g.emitDec("honest_decode", in, expect{SameAs: hx(in), Comment: h.label})
 		// boundary cuts
-		cuts := []int{0, 1, len(h.hb) - 1, len(h.hb), len(h.hb) + 1, len(in) - 1}
-		for i := 0; i < 1; i++ {
-			cuts = append(cuts, r.Intn(len(in)))
+		cuts := []int{len(h.hb), len(in) - 1, r.Intn(len(in))}
+		if hi%4 == 0 {
+			cuts = append(cuts, 0, 1, len(h.hb)-1, len(h.hb)+1)
 		}
 		for _, c := range cuts {
 			if c >= 0 && c < len(in) {
 				g.emitDec("truncated", in[:c], expect{Reject: true, Comment: fmt.Sprintf("%s cut at %d of %d", h.label, c, len(in))})
 			}
 		}
-		for _, tail := range [][]byte{{0}, randBytes(r, 1+r.Intn(40)), in} {
-			g.emitDec("extended", append(append([]byte{}, in...), tail...), expect{SameAs: hx(in), Comment: h.label + " with trailing bytes"})
+		tails := [][]byte{randBytes(r, 1+r.Intn(40))}
+		if hi%4 == 1 {
+			tails = append(tails, []byte{0}, in)
+		}
+		for _, tail := range tails {
+			g.emitDec("extended", append(append([]byte{}, in...), tail...), expect{SameIf: hx(in), Comment: h.label + " with trailing bytes"})
 		}
 	}
 }
@@ -289,6 +295,7 @@ func (g *gen) genCrafted() {
 		src := g.pick()
 		h, b := cpH(src.hf), cpB(src.bf)
 		var what []string
+		exotic := false // a form no node marshals: acceptance is then not required by the property
 		opt := func(p float64) bool { return r.Float64() < p }
 		if opt(0.5) {
 			k := r.Intn(4)
@@ -309,6 +316,7 @@ func (g *gen) genCrafted() {
 				// a transaction in a non-canonical JSON layout: Bytes() of the parsed one differs
 				b.NormalTransactions[0] = []byte(fmt.Sprintf("{ \"type\" : \"test\",  \"timestamp\":\"0x%x\"} ", r.Int63n(1<<30)))
 				what = append(what, "noncanonical-tx")
+				exotic = true
 			}
 			h.NormalTransactionsHash = w.rootOfBytes(b.NormalTransactions)
 			what = append(what, fmt.Sprintf("normal=%d", k))
@@ -321,6 +329,7 @@ func (g *gen) genCrafted() {
 					b.PatchTransactions = [][]byte{}
 				}
 				what = append(what, "empty-patch-hash")
+				exotic = true
 			}
 		}
 		if opt(0.4) {
@@ -330,6 +339,7 @@ func (g *gen) genCrafted() {
 				b.Votes = d.bf.Votes
 			case 1:
 				b.Votes = nil
+				exotic = true
 			case 2:
 				b.Votes = consensus.NewEmptyCommitVoteList().Bytes()
 			}
@@ -373,6 +383,7 @@ func (g *gen) genCrafted() {
 				h.Proposer = nil
 			case 1:
 				h.Proposer = randBytes(r, 20) // normalised to 21 bytes by the decoder
+				exotic = true
 			case 2:
 				h.Proposer = append([]byte{1}, randBytes(r, 20)...)
 			case 3:
@@ -386,6 +397,7 @@ func (g *gen) genCrafted() {
 				h.PrevID = nil
 			case 1:
 				h.PrevID = []byte{}
+				exotic = true
 			case 2:
 				h.PrevID = randBytes(r, 32)
 			}
@@ -397,6 +409,7 @@ func (g *gen) genCrafted() {
 				h.NextValidatorsHash = nil
 			case 1:
 				h.NextValidatorsHash = []byte{}
+				exotic = true
 			case 2:
 				h.NextValidatorsHash = randBytes(r, 32)
 			}
@@ -406,12 +419,14 @@ func (g *gen) genCrafted() {
 			switch r.Intn(4) {
 			case 0:
 				h.LogsBloom = nil
+				exotic = true
 			case 1:
 				h.LogsBloom = []byte{}
 			case 2:
-				h.LogsBloom = common.Compress(randBytes(r, 1+r.Intn(256)))
+				h.LogsBloom = common.Compress(append([]byte{1}, randBytes(r, r.Intn(256))...))
 			case 3:
 				h.LogsBloom = randBytes(r, 1+r.Intn(20)) // not LZW: normalised
+				exotic = true
 			}
 			what = append(what, "bloom")
 		}
@@ -422,10 +437,12 @@ func (g *gen) genCrafted() {
 				h.Result, b.BTPDigest, h.NSFilter = nil, nil, nil
 			case 1:
 				h.Result, b.BTPDigest, h.NSFilter = []byte{}, nil, nil
+				exotic = true
 			case 2:
 				h.Result, b.BTPDigest, h.NSFilter = resultWith(r, nil, nil), nil, nil
 			case 3:
 				h.Result, b.BTPDigest, h.NSFilter = resultWith(r, nil, randBytes(r, 3)), nil, []byte{}
+				exotic = true
 			default:
 				ids := []int64{int64(r.Intn(300))}
 				for opt(0.5) {
@@ -436,7 +453,7 @@ func (g *gen) genCrafted() {
 			}
 			what = append(what, "result")
 		}
-		g.emitDec("crafted_valid", enc(h, b), expect{Accept: true, Comment: src.label + " " + strings.Join(what, " ")})
+		g.emitDec("crafted_valid", enc(h, b), expect{Accept: !exotic, Comment: src.label + " " + strings.Join(what, " ")})
 	}
 }
 
@@ -685,7 +702,7 @@ func (g *gen) genRawForms() {
 			if len(bi) == 3 {
 				bi = append(bi, rlpNil)
 			}
-			ex.SameAs = hx(a.bytes())
+			ex.SameIf = hx(a.bytes())
 			what = "explicit nil optional fields"
 		case 3: // header with 10 items / body with 2
 			if r.Intn(2) == 0 {
@@ -697,7 +714,7 @@ func (g *gen) genRawForms() {
 			what = "missing list items"
 		case 4: // non-minimal integer
 			hi[1] = append([]byte{0x80 + byte(len(hi[1])+1), 0}, intPayload(hi[1])...)
-			ex.SameAs = hx(a.bytes())
+			ex.SameIf = hx(a.bytes())
 			what = "height with a leading zero byte"
 		case 5: // nil integers
 			hi[1+r.Intn(2)] = rlpNil
@@ -916,6 +933,47 @@ func corpusFiles2(file string) [][]byte {
 	return corpusFiles(tmp)
 }
 
+// corpus/C08/*.json: inputs that once violated the property, run first
+func corpusDir() string {
+	if d := os.Getenv("C08_CORPUS"); d != "" {
+		return d
+	}
+	wd, _ := os.Getwd()
+	for d := wd; d != "/" && d != "."; d = filepath.Dir(d) {
+		p := filepath.Join(d, "corpus", "C08")
+		if st, err := os.Stat(p); err == nil && st.IsDir() {
+			return p
+		}
+	}
+	return "/verif/corpus/C08"
+}
+
+func (g *gen) genCorpus() {
+	names, _ := filepath.Glob(filepath.Join(corpusDir(), "*.json"))
+	sort.Strings(names)
+	if len(names) == 0 {
+		g.c.Note("no corpus inputs found in %s", corpusDir())
+	}
+	for _, n := range names {
+		b, err := os.ReadFile(n)
+		if err != nil {
+			continue
+		}
+		var doc struct {
+			Input decIn `json:"input"`
+		}
+		if err := json.Unmarshal(b, &doc); err != nil || doc.Input.Hex == "" {
+			g.c.Note("corpus file %s skipped: %v", n, err)
+			continue
+		}
+		ex := doc.Input.Expect
+		if ex.Comment == "" {
+			ex.Comment = "corpus " + filepath.Base(n)
+		}
+		g.emitDec("corpus", unhex(doc.Input.Hex), ex)
+	}
+}
+
 func (g *gen) canaries() {
 	h := g.honest[0]
 	in := h.bytes()
@@ -927,15 +985,18 @@ func (g *gen) canaries() {
 	e.addH(h.hb)
 	wrong := *r.obs
 	wrong.Height++
+	resetIntern()
 	g.c.Emit(hxlib.Case{Kind: "canary", Canary: true,
-		Coq: fmt.Sprintf("CDec %s %s (Some (%s, %s, 0))", e.coq(), hxlib.CoqBytes(in), wrong.coq(), hxlib.CoqBytes(r.obs.ID))})
+		Coq: wrapLets(fmt.Sprintf("CDec %s %s (Some (%s, %s, 0))", e.coq(), cb(in), wrong.coq(), cb(r.obs.ID)))})
 	badID := append([]byte{}, r.obs.ID...)
 	badID[0] ^= 1
+	resetIntern()
 	g.c.Emit(hxlib.Case{Kind: "canary", Canary: true,
-		Coq: fmt.Sprintf("CEnc %s %s %s %s %s", e.coq(), r.obs.coq(), hxlib.CoqBytes(h.hb), hxlib.CoqBytes(h.bb), hxlib.CoqBytes(badID))})
+		Coq: wrapLets(fmt.Sprintf("CEnc %s %s %s %s %s", e.coq(), r.obs.coq(), cb(h.hb), cb(h.bb), cb(badID)))})
 	// a rejected input reported as accepted
+	resetIntern()
 	g.c.Emit(hxlib.Case{Kind: "canary", Canary: true,
-		Coq: fmt.Sprintf("CDec %s %s (Some (%s, %s, 0))", e.coq(), hxlib.CoqBytes(in[:len(in)-1]), r.obs.coq(), hxlib.CoqBytes(r.obs.ID))})
+		Coq: wrapLets(fmt.Sprintf("CDec %s %s (Some (%s, %s, 0))", e.coq(), cb(in[:len(in)-1]), r.obs.coq(), cb(r.obs.ID)))})
 }
 
 func genAll(c *hxlib.Ctx) {
@@ -949,6 +1010,7 @@ func genAll(c *hxlib.Ctx) {
 	if len(w.t.errs) > 0 {
 		c.Note("fixture assertions: %s", strings.Join(w.t.errs, " | "))
 	}
+	g.genCorpus()
 	g.genHonest()
 	g.genCrafted()
 	g.genBodySwap()
@@ -982,6 +1044,7 @@ func main() {
 			"derived inputs: consistent blocks re-assembled by the harness (patch/normal transactions, votes, proposer forms, nil/empty fields, extreme integers, synthetic BTP digests and filters), header of one block with body parts of another or altered (must be rejected), single header field changes, " +
 			"list forms the marshaller never produces, truncated and extended encodings, byte noise, random bytes, hostile sizes, the fuzz target's seeds (thorough: 90 s of the native fuzz target seeded with the honest encodings). " +
 			"A case is non-trivial when both format structs decode, i.e. the hash comparisons are reached.",
+		Shard:  120,
 		Gen:    genAll,
 		Replay: replay,
 	})
